@@ -220,6 +220,10 @@ fn ledger_driver(out: &str, seed: u64, n: u64, len: u64) {
     let amounts: [u64; 12] = [0, 1, 2, 7, 999, 1_000_003, 50_000_000, 1_000_000_000, 33_333_333_333, 2_500_000_000_000, 77, 123_456_789];
     for k in 0..n {
         r.begin(&[]);
+        // a third of the histories run in a group whose program fees are switched off (the global fee rates stay cached in the group)
+        if k % 3 == 1 {
+            r.act(json!({"op":"config_group_fee","group":"G1","enable":false}));
+        }
         // seed liquidity so that borrowing is possible in most scenarios
         if k % 4 != 3 {
             r.act(json!({"op":"deposit","acct":"A4","bank":"B1","amount": 5_000_000_000u64}));
